@@ -55,6 +55,8 @@ pub fn lookup(scen: &str) -> Option<Scenario> {
         "rtsweep" => scen_rt::run_short_sweep,
         "synth" => scen_synth::run,
         "bent" => scen_bent::run,
+        "c06gen" => scen_rd::run_c06_gen,
+        "c07gen" => scen_rd::run_c07_gen,
         "c16sweep" => scen_c16::run_sweeps,
         "c08" => scen_wr::run_c08,
         "c15" => scen_wr::run_c15,
